@@ -6,7 +6,7 @@ from plint.symx import C
 from plint.ir import line
 from plint.units import AnalysisBroken
 from plint import shape, treeshape
-from rules.treecommon import TreeRun, variant_roles, field_writers, fixup_functions
+from rules.treecommon import TreeRun, variant_roles, field_writers, fixup_functions, tree_view
 
 BAL_FIELDS = {"ptree-rb.c": "color", "ptree-avl.c": "balance_factor"}
 
@@ -116,7 +116,7 @@ def run(prog, rep):
         fixers = fixup_functions(u, fld)
         for mode in ("insert", "remove"):
             top = u.fn("p_tree_%s_%s" % (tag, mode), raw=True)
-            called = sorted(set(c.get("callee") for (b, i, c) in top.calls() if c.get("callee") in fixers))
+            called = sorted(set(c.get("callee") for (b, i, c) in tree_view(top).calls() if c.get("callee") in fixers))     # (also through a non-balancing helper)
             if not called:
                 rep.ob(rule, top, "%s-fixup" % mode, False, "p_tree_%s_%s calls no helper that rewrites %s and rotates: nothing restores the balance invariant" % (tag, mode, fld), top.loc[0])
                 continue
